@@ -16,6 +16,8 @@ import (
 	"errors"
 	"fmt"
 	"hash/fnv"
+	"io"
+	"log"
 	"os"
 	"reflect"
 	"regexp"
@@ -25,6 +27,7 @@ import (
 	"time"
 
 	"gorm.io/gorm"
+	"gorm.io/gorm/logger"
 
 	"verif/h"
 	"verif/mc"
@@ -32,8 +35,8 @@ import (
 )
 
 type worker struct {
-	// envs[strict]: {normal handle, Config.DryRun handle}; strict = AllowGlobalUpdate off
-	envs   [2][2]*h.Env
+	// pairs[configuration]: {normal handle, Config.DryRun handle}
+	pairs  map[int][2]*h.Env
 	a, b   *h.Env // the pair in use: a normal handle (session DryRun, ToSQL, real); b: Config.DryRun
 	texts  map[uint64]struct{}
 	outcms map[string]struct{}
@@ -50,38 +53,58 @@ func open(cfg *gorm.Config) *h.Env {
 	return e
 }
 
-func openPair(strict bool) [2]*h.Env {
+// loggerFor returns the Config.Logger of a handle configuration (nil = logger.Discard,
+// which is also the base of the db.Debug() configuration).
+func loggerFor(cfg int) logger.Interface {
+	w := log.New(io.Discard, "", 0)
+	switch cfg {
+	case 1:
+		return logger.New(w, logger.Config{LogLevel: logger.Info, ParameterizedQueries: true})
+	case 2:
+		return logger.New(w, logger.Config{LogLevel: logger.Silent})
+	}
+	return nil
+}
+
+func pairKey(strict bool, lg int) int {
+	if lg == 3 {
+		lg = 0 // db.Debug() is derived from the Discard handle
+	}
+	k := lg
+	if strict {
+		k += 4
+	}
+	return k
+}
+
+func openPair(strict bool, lg int) [2]*h.Env {
 	return [2]*h.Env{
-		open(&gorm.Config{AllowGlobalUpdate: !strict}),
-		open(&gorm.Config{AllowGlobalUpdate: !strict, DryRun: true}),
+		open(&gorm.Config{AllowGlobalUpdate: !strict, Logger: loggerFor(lg)}),
+		open(&gorm.Config{AllowGlobalUpdate: !strict, DryRun: true, Logger: loggerFor(lg)}),
 	}
 }
 
 func newWorker() *worker {
-	w := &worker{texts: map[uint64]struct{}{}, outcms: map[string]struct{}{}}
-	w.envs[0], w.envs[1] = openPair(false), openPair(true)
-	w.use(false)
-	return w
+	return &worker{texts: map[uint64]struct{}{}, outcms: map[string]struct{}{}, pairs: map[int][2]*h.Env{}}
 }
 
-func (w *worker) use(strict bool) {
-	i := 0
-	if strict {
-		i = 1
+// use selects (opening it on first use) the pair of handles of a configuration.
+func (w *worker) use(c pg.Case) {
+	k := pairKey(c.Strict, c.Logger)
+	pr, ok := w.pairs[k]
+	if !ok {
+		pr = openPair(c.Strict, c.Logger%3)
+		w.pairs[k] = pr
 	}
-	w.a, w.b = w.envs[i][0], w.envs[i][1]
+	w.a, w.b = pr[0], pr[1]
 }
 
 // renew replaces the pair in use (after a panic inside gorm left a transaction open).
-func (w *worker) renew(strict bool) {
-	i := 0
-	if strict {
-		i = 1
-	}
+func (w *worker) renew(c pg.Case) {
 	w.a.Close()
 	w.b.Close()
-	w.envs[i] = openPair(strict)
-	w.use(strict)
+	delete(w.pairs, pairKey(c.Strict, c.Logger))
+	w.use(c)
 }
 
 type runResult struct {
@@ -126,17 +149,21 @@ func (w *worker) run(p *pg.Prog, mode int) (res runResult) {
 		}()
 		var tx *gorm.DB
 		agu := p.Case.SessionAGU
+		root := env.DB
+		if p.Case.Logger == 3 {
+			root = root.Debug()
+		}
 		switch mode {
 		case modeSession:
-			tx, _ = p.Run(env.DB.Session(&gorm.Session{DryRun: true, AllowGlobalUpdate: agu}))
+			tx, _ = p.Run(root.Session(&gorm.Session{DryRun: true, AllowGlobalUpdate: agu}))
 		case modeConfig, modeReal:
-			d := env.DB
+			d := root
 			if agu {
 				d = d.Session(&gorm.Session{AllowGlobalUpdate: true})
 			}
 			tx, _ = p.Run(d)
 		case modeToSQL:
-			res.toSQL = env.DB.ToSQL(func(d *gorm.DB) *gorm.DB {
+			res.toSQL = root.ToSQL(func(d *gorm.DB) *gorm.DB {
 				if agu {
 					d = d.Session(&gorm.Session{AllowGlobalUpdate: true})
 				}
@@ -225,8 +252,8 @@ func sameVars(a, b []interface{}) bool {
 }
 
 type stats struct {
-	programs, compared, bothNothing, unconvertible, dryWriteTx, realErr, dryErr, sampled        int64
-	reads, writes, multi, multiRealStmts, classifiedPanics, bothError, bothMissingWhere, strict int64
+	programs, compared, bothNothing, unconvertible, dryWriteTx, realErr, dryErr, sampled                                                        int64
+	reads, writes, multi, multiRealStmts, classifiedPanics, bothError, bothMissingWhere, strict, writeNotReached, writeCompared, loggerCompared int64
 }
 
 func tags(p *pg.Prog) []string {
@@ -235,6 +262,9 @@ func tags(p *pg.Prog) []string {
 		out = append(out, "op:"+o.Label)
 	}
 	out = append(out, "fin:"+p.Fin.Label, "kind:"+p.Fin.Kind)
+	if p.Case.Logger > 0 {
+		out = append(out, fmt.Sprintf("logger:%d", p.Case.Logger))
+	}
 	if p.Case.Strict {
 		if p.Case.SessionAGU {
 			out = append(out, "allow-global-update:session")
@@ -256,7 +286,7 @@ func tags(p *pg.Prog) []string {
 
 func check(run *mc.Run, w *worker, p *pg.Prog, st *stats, samples *mc.Samples, outcomes *mc.Set, verbose bool) {
 	p.SQLite = true
-	w.use(p.Case.Strict)
+	w.use(p.Case)
 	atomic.AddInt64(&st.programs, 1)
 	if p.Case.Strict {
 		atomic.AddInt64(&st.strict, 1)
@@ -275,7 +305,7 @@ func check(run *mc.Run, w *worker, p *pg.Prog, st *stats, samples *mc.Samples, o
 	}
 	if rs[modeReal].panicMsg != "" || rs[modeReal].leak != "" || rs[modeSession].leak != "" || rs[modeConfig].leak != "" {
 		// a panic inside gorm leaves a transaction / connection behind: continue on fresh handles
-		w.renew(p.Case.Strict)
+		w.renew(p.Case)
 	} else if p.Fin.Write {
 		w.reseed()
 	}
@@ -328,7 +358,17 @@ func check(run *mc.Run, w *worker, p *pg.Prog, st *stats, samples *mc.Samples, o
 
 	ref := rs[modeSession]
 	real := rs[modeReal]
-	if p.Fin.Multi {
+	if p.Fin.WriteStep != "" {
+		// compare the main WRITE statement instead of the first statement
+		var ws []stmtEvent
+		for _, e := range real.stmts {
+			if strings.HasPrefix(strings.ToUpper(strings.TrimSpace(e.text)), p.Fin.WriteStep) {
+				ws = append(ws, e)
+			}
+		}
+		real.stmts = ws
+	}
+	if p.Fin.Multi && p.Fin.WriteStep == "" {
 		// several main statements / nothing exposed on the returned handle:
 		// only the "sends nothing" half applies
 		atomic.AddInt64(&st.multi, 1)
@@ -368,6 +408,10 @@ func check(run *mc.Run, w *worker, p *pg.Prog, st *stats, samples *mc.Samples, o
 	}
 	outcome := ""
 	switch {
+	case p.Fin.WriteStep != "" && len(real.stmts) == 0:
+		// the real lookup found a row or failed: the write step was not reached
+		atomic.AddInt64(&st.writeNotReached, 1)
+		outcome = "write-step-not-reached"
 	case ref.text == "":
 		// nothing was built: the real run must not succeed in sending something
 		atomic.AddInt64(&st.dryErr, 1)
@@ -419,6 +463,12 @@ func check(run *mc.Run, w *worker, p *pg.Prog, st *stats, samples *mc.Samples, o
 			add("real-differs: values\n  dry (converted): %s\n  real:            %s", showList(want), showList(got))
 		} else {
 			atomic.AddInt64(&st.compared, 1)
+			if p.Fin.WriteStep != "" {
+				atomic.AddInt64(&st.writeCompared, 1)
+			}
+			if p.Case.Logger > 0 {
+				atomic.AddInt64(&st.loggerCompared, 1)
+			}
 			outcome = "equal vars=" + fmt.Sprint(len(got)) + " kind=" + main.kind
 			if real.err != nil {
 				atomic.AddInt64(&st.realErr, 1)
@@ -498,6 +548,7 @@ func main() {
 		dev    int
 		r1     []pg.Class
 		strict int // 0: AllowGlobalUpdate by config; 1: off; 2: off in the config, on by Session
+		logger int // 0 Discard, 1 Info+ParameterizedQueries, 2 Silent, 3 db.Debug()
 	}
 	var items []item
 	addItems := func(shapes []pg.Shape, dev int, r1 []pg.Class, strict int) {
@@ -507,7 +558,7 @@ func main() {
 			stride++
 		}
 		for i := 0; i < n; i++ {
-			items = append(items, item{shapes[(i*stride)%n], dev, r1, strict})
+			items = append(items, item{shapes[(i*stride)%n], dev, r1, strict % 10, strict / 10})
 		}
 	}
 	both := []int{pg.ModelT, pg.ModelS}
@@ -525,19 +576,26 @@ func main() {
 	}
 	if !thorough {
 		addItems(pg.Shapes(both, pg.Seqs(all, 0, 1), pg.FinsFor(false, true)), 1, pg.PathClasses, 0)
-		addItems(pg.Shapes(both, pg.Seqs(all, 2, 2), pg.FinsFor(true, true)), 0, nil, 0)
+		for lg := 1; lg <= 3; lg++ {
+			addItems(pg.Shapes(both, pg.Seqs(all, 0, 1), pg.FinsFor(false, true)), 0, nil, 10*lg)
+		}
 		addItems(pg.Shapes(both, pg.Seqs(all, 0, 1), guarded(pg.FinsFor(false, true))), 0, nil, 1)
 		addItems(pg.Shapes(both, pg.Seqs(all, 0, 1), guarded(pg.FinsFor(false, true))), 0, nil, 2)
-		addItems(pg.Shapes(both, pg.Seqs(all, 2, 2), guarded(pg.FinsFor(true, true))), 0, nil, 1)
-		plan = fmt.Sprintf("<=1 call over %d calls x %d finishers x 2 models with <=1 slot deviating over %d path classes; 2 calls x %d representative finishers x 2 models with default classes", len(all), len(pg.FinsFor(false, true)), len(pg.PathClasses), len(pg.FinsFor(true, true)))
+		onlyS := []int{pg.ModelS} // timestamps + soft delete: the richer model
+		addItems(pg.Shapes(onlyS, pg.Seqs(all, 2, 2), guarded(pg.FinsFor(true, true))), 0, nil, 1)
+		addItems(pg.Shapes(onlyS, pg.Seqs(all, 2, 2), pg.FinsFor(true, true)), 0, nil, 0)
+		plan = fmt.Sprintf("<=1 call over %d calls x %d finishers x 2 models with <=1 slot deviating over %d path classes; 2 calls x %d representative finishers x model S with default classes", len(all), len(pg.FinsFor(false, true)), len(pg.PathClasses), len(pg.FinsFor(true, true)))
 	} else {
 		addItems(pg.Shapes(both, pg.Seqs(all, 0, 1), pg.FinsFor(false, true)), 1, nil, 0)
-		addItems(pg.Shapes(both, pg.Seqs(all, 2, 2), pg.FinsFor(false, true)), 0, nil, 0)
-		addItems(pg.Shapes(both, pg.Seqs(all, 2, 2), pg.FinsFor(true, true)), 1, pg.PathClasses, 0)
-		addItems(pg.Shapes([]int{pg.ModelS}, pg.Seqs(core, 3, 3), pg.FinsFor(true, true)), 0, nil, 0)
+		for lg := 1; lg <= 3; lg++ {
+			addItems(pg.Shapes(both, pg.Seqs(all, 0, 1), pg.FinsFor(false, true)), 1, pg.PathClasses, 10*lg)
+		}
 		addItems(pg.Shapes(both, pg.Seqs(all, 0, 1), guarded(pg.FinsFor(false, true))), 1, pg.PathClasses, 1)
 		addItems(pg.Shapes(both, pg.Seqs(all, 0, 1), guarded(pg.FinsFor(false, true))), 0, nil, 2)
 		addItems(pg.Shapes(both, pg.Seqs(all, 2, 2), guarded(pg.FinsFor(false, true))), 0, nil, 1)
+		addItems(pg.Shapes(both, pg.Seqs(all, 2, 2), pg.FinsFor(false, true)), 0, nil, 0)
+		addItems(pg.Shapes(both, pg.Seqs(all, 2, 2), pg.FinsFor(true, true)), 1, pg.PathClasses, 0)
+		addItems(pg.Shapes([]int{pg.ModelS}, pg.Seqs(core, 3, 3), pg.FinsFor(true, true)), 0, nil, 0)
 		plan = fmt.Sprintf("<=1 call over %d calls x %d finishers x 2 models with <=1 slot deviating over all %d classes; 2 calls x all finishers x 2 models with default classes and x %d representative finishers with <=1 slot deviating over %d path classes; 3 calls over the reduced alphabet of %d calls x representative finishers x model S", len(all), len(pg.FinsFor(false, true)), int(pg.NumClasses), len(pg.FinsFor(true, true)), len(pg.PathClasses), len(core))
 	}
 
@@ -571,7 +629,7 @@ func main() {
 				it := items[n]
 				it.shape.ClassVectors(it.dev, it.r1, nil, func(classes []int) {
 					p := it.shape.Prog(classes)
-					p.Case.Strict, p.Case.SessionAGU = it.strict > 0, it.strict == 2
+					p.Case.Strict, p.Case.SessionAGU, p.Case.Logger = it.strict > 0, it.strict == 2, it.logger
 					check(run, w, p, st, samples, outcomes, false)
 				})
 				atomic.AddInt64(&shapesDone, 1)
@@ -592,6 +650,12 @@ func main() {
 		if st.bothMissingWhere < 50 {
 			run.HarnessError("vacuous: only %d condition-less updates/deletes refused alike by DryRun and real run", st.bothMissingWhere)
 		}
+		if st.writeCompared < 100 {
+			run.HarnessError("vacuous: only %d lookup-then-write programs whose write statement was compared", st.writeCompared)
+		}
+		if st.loggerCompared < 1000 {
+			run.HarnessError("vacuous: only %d programs compared under a non-Discard logger", st.loggerCompared)
+		}
 		if st.dryWriteTx < 100 {
 			run.HarnessError("vacuous: only %d DryRun writes opened an (empty) implicit transaction", st.dryWriteTx)
 		}
@@ -600,6 +664,8 @@ func main() {
 		}
 	}
 	run.Assume("programs of package proggram: records without nested association values; for finishers with several main statements or none exposed on the returned handle (CreateInBatches, CreateBatchSize, FirstOrCreate, FindInBatches, Transaction / Begin blocks) only the sends-nothing half is checked; a Transaction/Begin block requested by the program itself may BEGIN/COMMIT in every mode")
+	run.Assume("logger configurations: logger.Discard for all programs; stock logger Info+ParameterizedQueries, stock logger Silent and db.Debug() for programs with <=1 call")
+	run.Assume("lookup-then-write finishers: the write statement is compared only when the real lookup found no row (what a found row contains is data DryRun cannot know)")
 	run.Assume("handle configurations: AllowGlobalUpdate by Config (all programs), off, and on by Session (update/delete finishers); when the real run refuses an operation and sends nothing, DryRun must return the same error")
 	run.Assume("'values after conversion' = database/sql's driver.DefaultParameterConverter (the recording driver defines no converter of its own); a value it refuses never reaches the driver, which is checked instead of the equality")
 	run.Assume("when nothing is built in DryRun mode only 'the real run does not succeed in sending something' is checked; an error set after the statement was exposed (e.g. FirstOrInit assigning condition values) does not suspend the comparison")
@@ -607,7 +673,7 @@ func main() {
 	run.Finish(map[string]interface{}{
 		"evaluations":         st.programs,
 		"distinct_nontrivial": texts.Len(),
-		"rule":                "every program is run as Session{DryRun:true}, Config.DryRun, ToSQL and for real from identical handles/data (counter clock reset, re-seed after writes): " + plan + "; all of these on handles with AllowGlobalUpdate, and every update/delete finisher additionally (<=1 call, and 2 calls with default classes) on handles WITHOUT AllowGlobalUpdate and with AllowGlobalUpdate switched on by Session; non-trivial = distinct statement texts that reached the driver in the real run and were compared (text and converted values) with the DryRun statement",
+		"rule":                "every program is run as Session{DryRun:true}, Config.DryRun, ToSQL and for real from identical handles/data (counter clock reset, re-seed after writes): " + plan + "; all of these on handles with AllowGlobalUpdate, and every update/delete finisher additionally (<=1 call, and 2 calls with default classes) on handles WITHOUT AllowGlobalUpdate and with AllowGlobalUpdate switched on by Session; every program with <=1 call additionally on handles with the stock logger at Info with ParameterizedQueries, the stock logger at Silent, and db.Debug() (all writing to io.Discard); lookup-then-write finishers (FirstOrCreate / First,Take,Find + Save,Create into a pre-filled destination) compare their main INSERT instead of the first statement; non-trivial = distinct statement texts that reached the driver in the real run and were compared (text and converted values) with the DryRun statement",
 		"samples":             samples.List(),
 		"exhaustive":          timedOut == 0 && tooMany == 0,
 		"shapes_total":        len(items),
@@ -624,6 +690,9 @@ func main() {
 		"programs_failing_before_sending_in_both_modes":                     st.bothError,
 		"programs_refused_with_missing_where_in_dryrun_and_real":            st.bothMissingWhere,
 		"programs_run_without_allow_global_update":                          st.strict,
+		"lookup_then_write_programs_write_statement_compared":               st.writeCompared,
+		"lookup_then_write_programs_write_step_not_reached":                 st.writeNotReached,
+		"programs_compared_under_a_non_discard_logger":                      st.loggerCompared,
 		"read_programs":                     st.reads,
 		"write_programs":                    st.writes,
 		"distinct_outcomes":                 outcomes.Len(),
